@@ -554,7 +554,7 @@ def behaviour_leg(chk):
 
 # ---- whole-process behaviour: the same PROGRAM (harness/h_header_exit.cpp) built against the library and header-only;
 #      compared after the process ended: exit status / signal, stdout, stderr, the files it left ------------------------
-N_TEMPLATES = 7          # kTemplates in harness/h_header_exit.cpp
+N_TEMPLATES = 8          # kTemplates in harness/h_header_exit.cpp
 EARLY_OPS = ('fs', 'rs', 'cfg', 'stf', 'log', 'clog', 'flush', 'own', 'pat', 'restore')
 
 
@@ -604,6 +604,7 @@ def exit_programs(chk, n_random):
             'cfg:0:0:0:0/app,log:3/ret:0',               # logging configured by a global object, used from main
             'cfg:0:0:0:0,log:2/app,log:1/ret:0',         # ... and used by that global object itself
             'stf:3/log:2/exit:1', 'stf:0,log:2/app,log:1/ret:0',
+            'fs:7:1:0//ret:0', 'rs:7:60:2:2:0/fs:7:1:2/ret:0', 'cfg:7:0:0:0,log:1/log:1/exit:0',   # a log file that cannot be opened
             'own:0:2/own:4:1/ret:0', 'pat:0,pat:1/pat:2/ret:7',
             '/stf:0,log:2/fatal', '/app,cfg:0:0:0:0,log:1/fatal', '/stf:0,log:3/qexit:2', 'stf:0,log:1,eexit:4//ret:0',
             '/stf:0,log:1,restore,log:1/ret:0', '/app,cfg:5:0:0:0,log:1,flush,log:1/ret:0']
@@ -659,6 +660,7 @@ def run_program(exe, prog, timeout=180):
                 full = os.path.join(dp, f)
                 files.append((os.path.relpath(full, w), open(full, 'rb').read()))
         files.sort()
+        so, se = (x.decode('utf-8', 'replace').replace(w, '<dir>') for x in (so, se))      # the sinks' error messages name the file
         return {'status': status, 'stdout': canon_text(so), 'stderr': canon_text(se),
                 'files': [[canon_text(n), canon_text(c)] for n, c in files]}
     finally:
